@@ -77,6 +77,14 @@ Proof.
 Qed.
 Print Assumptions C11_total_refuted_ne.
 
+(* affine loop subscripts x[a*i + b] (a, b any integers, a may be negative or zero) are part of
+   expr (RAff), so C11_expr / C11_residual cover them: the for-equation residual is the body
+   instantiated at each range value v with subscript a*v + b.  Spelled out for the subscript: *)
+Theorem C11_affine_subscript (rm : menv) (rc : cenv) (x : positive) (a b v : Z) :
+  env_rel rm rc -> c_sym (tr_ref (RAff x a b)) (with_ci rc v) = m_arr rm x (a * v + b).
+Proof. exact (affine_subscript rm rc x a b v). Qed.
+Print Assumptions C11_affine_subscript.
+
 (* for i in lo:hi visits exactly lo..hi *)
 Theorem C11_loop_range (lo hi v : Z) : In v (range_values lo 1 hi) <-> (lo <= v <= hi)%Z.
 Proof. exact (range_values_step1_In lo hi v). Qed.
